@@ -510,3 +510,80 @@ func errClass(err error) string {
 	}
 	return "other:" + s
 }
+
+// ---- asynchronous start (member-count quorum > 1: a member only finishes starting once enough peers are present) ----
+
+// vStartMemberAsync creates a member and starts it in the background; ready() tells when it is bootstrapped.
+func vStartMemberAsync(o vOpts, peers []string) (*vMember, error) {
+	c := vConfig(o)
+	port, err := testutil.GetFreePort()
+	if err != nil {
+		return nil, err
+	}
+	c.BindPort = port
+	c.Peers = append([]string(nil), peers...)
+	if err := c.Sanitize(); err != nil {
+		return nil, err
+	}
+	if err := c.Validate(); err != nil {
+		return nil, err
+	}
+	db, err := New(c)
+	if err != nil {
+		return nil, err
+	}
+	go func() { _ = db.Start() }()
+	m := &vMember{db: db, cfg: c, alive: true}
+	m.name = net.JoinHostPort(c.BindAddr, strconv.Itoa(c.BindPort))
+	m.emb = db.NewEmbeddedClient()
+	m.rc = redis.NewClient(&redis.Options{Addr: m.name, MaxRetries: -1, DialTimeout: 2 * time.Second, ReadTimeout: 10 * time.Second, PoolSize: 64})
+	return m, nil
+}
+
+// memberlistUp waits until the member's gossip layer listens, so that others can join through it.
+func (m *vMember) memberlistUp(timeout time.Duration) (addr string, ok bool) {
+	deadline := time.Now().Add(timeout)
+	for time.Now().Before(deadline) {
+		func() {
+			defer func() { _ = recover() }()
+			if d := m.db.rt.Discovery(); d != nil {
+				if n := d.LocalNode(); n != nil {
+					addr = n.Address()
+				}
+			}
+		}()
+		if addr != "" {
+			return addr, true
+		}
+		time.Sleep(2 * time.Millisecond)
+	}
+	return "", false
+}
+
+func (m *vMember) ready() bool {
+	if !m.db.rt.IsBootstrapped() {
+		return false
+	}
+	select {
+	case <-m.db.server.StartedCtx.Done():
+		return true
+	default:
+		return false
+	}
+}
+
+// stop shuts a member down gracefully (leave broadcast).
+func (cl *vCluster) stop(m *vMember) {
+	if !m.alive {
+		return
+	}
+	m.alive = false
+	ctx, cancel := context.WithTimeout(context.Background(), 5*time.Second)
+	_ = m.db.Shutdown(ctx)
+	cancel()
+	_ = m.rc.Close()
+	if cl.cc != nil {
+		_ = cl.cc.Close(context.Background())
+		cl.cc = nil
+	}
+}
